@@ -175,7 +175,13 @@ fn cmd_run(args: &[String]) {
         for (k, v) in &r.counters {
             *counters.entry(k.clone()).or_insert(0) += v;
         }
-        scheds.insert(r.sched_hash);
+        if scheds.insert(r.sched_hash) {
+            if let Some(w) = hashes_out.as_mut() {
+                // second stream in the same file: schedule hashes, tagged by the top bit pattern
+                let _ = w.write_all(&(r.sched_hash | 1).to_le_bytes());
+                let _ = w.write_all(&0xFFFF_FFFF_FFFF_FFFFu64.to_le_bytes());
+            }
+        }
         if let Some(w) = trace_out.as_mut() {
             let _ = writeln!(w, "{} {:016x} {}", index, r.trace_hash, r.verdict.violation.as_ref().map(|v| v.class.as_str()).unwrap_or("-"));
         }
